@@ -82,3 +82,7 @@ add("C06", "c06", "exploration", 3000, 100000,
     assumptions=["the handler is driven in-process (ServeHTTP + httptest.ResponseRecorder) so net/http's own request sanitising is bypassed: strictly more hostile than the wire",
                  "a 500 with code UNKNOWN is conformant by the statement (status agrees with the code) and is not flagged",
                  "backend is ocimem behind a recording wrapper; backend-side inconsistencies are not injected here"])
+
+add("C18", "c18", "exploration", 3000, 60000,
+    assumptions=["responses are served by a scripted RoundTripper that always sets Response.Request (as a real transport does) and fails every request once the script is exhausted: that makes 'the server's answers are finite' concrete",
+                 "a call that has not returned after 10 s is reported as looping without progress (normal calls take microseconds)"])
